@@ -141,6 +141,21 @@ pub fn targeted(rng: &mut Rng) -> (&'static str, Program, &'static str) {
                 "write-then-read",
             )
         }
+        6 if rng.chance(1, 2) => {
+            // a clause of a switch is a scope of its own (repair 0aff63c): the later clause and the code after the switch
+            // use the OUTER variable, assignments to it made in a clause persist
+            let let_ = |n: &str, v: Expr| Stmt::Lexical(false, vec![crate::ast::Decl { name: n.to_owned(), ty: None, value: Some(v) }]);
+            let sw = Stmt::Switch(
+                id("n"),
+                vec![
+                    (Some(int(0)), vec![let_("v", int(2)), assign(mem(id("a"), "i"), id("v"))]),
+                    (Some(int(1)), vec![assign(mem(id("b"), "i"), id("v")), Stmt::Expr(Expr::Assign(Box::new(id("v")), Box::new(int(40)))), Stmt::Break(false)]),
+                    (None, vec![let_("w", id("v")), log(vec![id("w")])]),
+                    (Some(int(7)), vec![log(vec![Expr::Str("seven".into()), id("v")])]),
+                ],
+            );
+            ("fired2", func(&[("n", &["int"])], vec![let_("v", Expr::Binary("add", Box::new(id("n")), Box::new(int(30)))), sw, log(vec![id("v")])]), "switch-clause-scope")
+        }
         6 => {
             // switch with fall-through in a handler
             let sw = Stmt::Switch(
